@@ -5,6 +5,9 @@ CONSTANTS
   TA = 3
   MaxT = 4
   TickSteps = {}
+  LifeEvents = FALSE
+  KeepAlive = 2
+  ClearWhen = "always"
   DupMode = "ignore"
   ClearFirst = FALSE
 VIEW view
